@@ -374,7 +374,9 @@ func runBytexA(ctx *core.Ctx, id string, n, nEntry int) {
 			if len(s) <= nEntry {
 				for _, t := range []string{string(s), " " + string(s), string(s) + "\n", "\t\r" + string(s) + " ", "\r\n" + string(s) + "\r\n",
 					// not JSON whitespace: must be rejected at either end
-					string(s) + "\f", "\v" + string(s), string(s) + "\xc2\xa0", "\xc2\x85" + string(s), string(s) + "\xe2\x80\xa8"} {
+					string(s) + "\f", "\v" + string(s), string(s) + "\xc2\xa0", "\xc2\x85" + string(s), string(s) + "\xe2\x80\xa8",
+					// byte order marks and a zero-width space: not JSON either
+					"\xef\xbb\xbf" + string(s), string(s) + "\xef\xbb\xbf", "\xfe\xff" + string(s), "\xff\xfe" + string(s), "\xe2\x80\x8b" + string(s)} {
 					m.judgeBytes(t, byteFlags{panics: true, reject: true, accept: true, applyOK: true})
 				}
 			}
@@ -613,6 +615,35 @@ func runBufferReuse(ctx *core.Ctx, id string) {
 		copy(buf, good)
 		if rej, p := e.call(buf); rej || p != "" {
 			report("call 3", "rejects-well-formed", p)
+		}
+	})
+}
+
+// runNumberShapes: every number literal of the grammar sign? int frac? exp? over small part menus (integer
+// parts 0, 7, 10, 120; fractions .0 .05 .50 .125; exponents with either letter, either sign, and leading
+// zeros) as a member value, an array element and at the root, into the codec functions and every entry point.
+func runNumberShapes(ctx *core.Ctx, id string, f byteFlags) {
+	var lits []string
+	for _, sign := range []string{"", "-"} {
+		for _, ip := range []string{"0", "7", "10", "120"} {
+			for _, fr := range []string{"", ".0", ".05", ".50", ".125"} {
+				for _, ex := range []string{"", "e0", "e5", "E5", "e+5", "E+5", "e-5", "E-5", "e05", "E+05", "e-07", "e00", "e007", "E-0", "e+00", "e10", "e308", "e-324", "e400"} {
+					lits = append(lits, sign+ip+fr+ex)
+				}
+			}
+		}
+	}
+	ctx.Count("number_shapes", int64(len(lits)))
+	m0 := &mergeRun{id: id, legacy: f.legacy, ctx: ctx}
+	ctx.Parallel(len(lits), func(w *core.Worker, i int) {
+		m := *m0
+		m.w = w
+		l := lits[i]
+		for _, t := range []string{l, "[" + l + "]", `{"n":` + l + `}`, `{"a":{"n":[` + l + `,1]}}`} {
+			m.judgeBytes(t, f)
+			if !f.legacy && f.reject {
+				m.judgeCodec([]byte(t))
+			}
 		}
 	})
 }
